@@ -9,7 +9,7 @@ for s in "${sel[@]}"; do
   git -C /repo worktree add -q --detach "$W" HEAD || exit 2
   if ! git -C "$W" apply "/verif/seeded/$s/patch.diff" 2>/dev/null; then echo "$s | PATCH-DOES-NOT-APPLY"; git -C /repo worktree remove --force "$W"; continue; fi
   t0=$(date +%s)
-  out=$(VERIF_REPO="$W" VERIF_BUILD_DIR=/tmp/sm-build VERIF_JOBS=${VERIF_JOBS:-16} VERIF_SEED=${VERIF_SEED:-1} ./check "$pid" --tier quick --no-evidence 2>&1 | grep -av WARNING)
+  out=$(VERIF_REPO="$W" VERIF_BUILD_DIR=/tmp/sm-build VERIF_JOBS=${VERIF_JOBS:-16} VERIF_SEED=${VERIF_SEED:-1} timeout -k 10 1800 ./check "$pid" --tier quick --no-evidence 2>&1 | grep -av WARNING)
   n=$(echo "$out" | grep -ac '^VIOLATION')
   subs=$(echo "$out" | grep -a '^  subcheck=' | sed 's/^  subcheck=\([a-z_0-9A-Z]*\):.*/\1/' | sort -u | tr '\n' ',' )
   h=$(echo "$out" | grep -ac 'HARNESS-ERROR')
